@@ -32,6 +32,9 @@ var Root = func() string {
 	return "/verif"
 }()
 
+// hangLimit is the watchdog limit for one case of a Parallel loop.
+const hangLimit = 30 * time.Second
+
 // Violation is one failing case.
 type Violation struct {
 	Sig     string      // canonical trigger+outcome signature used for dedup and findings matching
@@ -50,17 +53,21 @@ type Run struct {
 	Deadline time.Time
 	Workers  int
 
-	mu          sync.Mutex
-	cov         map[string]interface{}
-	counters    sync.Map // name -> *int64
-	samples     []interface{}
-	maxSamples  int
-	viol        []Violation
-	violSeen    map[string]int
-	assume      []string
-	notes       []string
-	exhaustive  bool
-	capped      atomic.Bool
+	mu         sync.Mutex
+	cov        map[string]interface{}
+	counters   sync.Map // name -> *int64
+	samples    []interface{}
+	maxSamples int
+	viol       []Violation
+	violSeen   map[string]int
+	assume     []string
+	notes      []string
+	exhaustive bool
+	capped     atomic.Bool
+	// Describe, when set, renders case i of the current Parallel loop for the hang watchdog.
+	Describe func(i uint64) string
+	// HangLimit overrides the watchdog limit for one case (loops whose cases are whole subprocess runs).
+	HangLimit   time.Duration
 	samplesFull atomic.Bool
 	nviol       atomic.Int64
 }
@@ -162,6 +169,47 @@ func (r *Run) Parallel(total uint64, f func(worker int, i uint64)) (completed bo
 	const chunk = 64
 	var wg sync.WaitGroup
 	var stop atomic.Bool
+	// Watchdog: a case that does not return within hangLimit is a hang of the
+	// code under test (a case normally costs microseconds). It cannot be
+	// interrupted in-process, so it is reported and the process exits.
+	type slot struct {
+		start atomic.Int64
+		index atomic.Uint64
+	}
+	slots := make([]slot, r.Workers)
+	done := make(chan struct{})
+	describe := r.Describe
+	hangLimit := hangLimit
+	if r.HangLimit > 0 {
+		hangLimit = r.HangLimit
+	}
+	go func() {
+		t := time.NewTicker(time.Second)
+		defer t.Stop()
+		for {
+			select {
+			case <-done:
+				return
+			case <-t.C:
+				now := time.Now().UnixNano()
+				for w := range slots {
+					st := slots[w].start.Load()
+					if st != 0 && now-st > int64(hangLimit) {
+						i := slots[w].index.Load()
+						what := fmt.Sprintf("case index %d", i)
+						if describe != nil {
+							what = describe(i)
+						}
+						r.Report(Violation{Sig: r.ID + ":hang", Summary: "the code under test did not return within " + hangLimit.String() + " on: " + what, Replay: map[string]interface{}{"case": what, "problem": "hang"}})
+						code := r.Finish(r.Get("evaluations"), r.Get("nontrivial"), "aborted by the hang watchdog; counts are partial")
+						_ = code
+						os.Exit(1)
+					}
+				}
+			}
+		}
+	}()
+	defer close(done)
 	for w := 0; w < r.Workers; w++ {
 		wg.Add(1)
 		go func(w int) {
@@ -176,7 +224,10 @@ func (r *Run) Parallel(total uint64, f func(worker int, i uint64)) (completed bo
 					hi = total
 				}
 				for i := lo; i < hi; i++ {
+					slots[w].index.Store(i)
+					slots[w].start.Store(time.Now().UnixNano())
 					f(w, i)
+					slots[w].start.Store(0)
 				}
 				if r.Expired() || r.ViolationCount() > 200 {
 					stop.Store(true)
